@@ -32,8 +32,8 @@ assumptions = [
     "NaN sources are limited to the default quiet NaN; float->integer conversions are refused by the code (BadType) and only sampled",
 ]
 trusted = [
-    "translate/cextract.py (clang-14 JSON AST -> Generated/ConvInt.lean, closed grammar, regenerated every run)",
-    "hand-written model of text->integer in MptModel/Impl/Convert.lean tied to convert_int.c/convert_number.c/convert_string.c by harness/drv_convert.c",
+    "translate/cextract.py (clang-14 JSON AST -> Generated/ConvInt.lean and Generated/ConvText.lean, closed grammar, regenerated every run)",
+    "model of glibc strtoimax/strtoumax and hand model of mpt_convert_string / the 'c' branch of mpt_convert_number in MptModel/Impl/Convert.lean, tied by harness/drv_convert.c",
 ]
 
 TRANSLATE = os.path.join(build.VERIF, "translate")
@@ -44,11 +44,15 @@ def generate(chk):
     if TRANSLATE not in sys.path:
         sys.path.insert(0, TRANSLATE)
     import cextract
-    try:
-        path, changed = cextract.generate_convint(build.REPO, build.LEAN)
-    except cextract.TranslateError as e:
-        raise build.BuildError("translator (cextract convint) rejected the source: %s" % e)
-    chk.notes.append("translator: Generated/ConvInt.lean %s" % ("rewritten" if changed else "unchanged"))
+    errors = []
+    for what, fn in (("convint", cextract.generate_convint), ("convtext", cextract.generate_convtext)):
+        try:
+            path, changed = fn(build.REPO, build.LEAN)
+            chk.notes.append("translator: %s %s" % (os.path.basename(path), "rewritten" if changed else "unchanged"))
+        except cextract.TranslateError as e:
+            errors.append("translator (cextract %s) rejected the source: %s" % (what, e))
+    if errors:
+        raise build.BuildError("\n".join(errors))
 
 
 def corpus(chk):
@@ -273,6 +277,8 @@ def scripts(tier, seed, scale=1):
                 ops = ["c %s %s %s %s" % (op, s, t, fhex(s, x)) for x in sel]
                 ops += ["c %s %s %s %s" % (op, s, t, v) for v in (encode(s, "inf"), encode(s, "-inf"), "nan", encode(s, Fraction(0), negzero=True))]
                 out += _chunks("bnd:%s:%s>%s" % (op, s, t), ops, 12)
+    chars = ["", " ", "a", " a", "\t\n z", "ab", " ~", "\x7f", " \x01", "\x80", " \xe9x", "  ", "!", " 0"]
+    out += _chunks("num:char", ["c text %s c %s" % (fn, gen.hexs(x.encode("latin-1"))) for x in chars for fn in ("number", "string")], 14)
     for t in TEXT_TGT:
         nums = _numerals(t)
         for fn in ("number", "string", "cint"):
@@ -313,6 +319,10 @@ def scripts(tier, seed, scale=1):
     for _ in range(nrand // 2):
         t = r.choice(TEXT_TGT)
         fn = r.choice(["number", "string", "cint"])
+        if r.random() < 0.05:
+            text = "".join(r.choice(" \t") for _ in range(r.randrange(0, 3))) + "".join(chr(r.choice([r.randrange(1, 256), r.randrange(33, 127)])) for _ in range(r.randrange(0, 3)))
+            ops.append("c text %s c %s" % (r.choice(["number", "string"]), gen.hexs(text.encode("latin-1"))))
+            continue
         lo, hi = INTS[t]
         k = r.choice([7, 8, 15, 16, 31, 32, 63, 64, 70])
         m = r.randrange(0, 2 ** k)
@@ -387,7 +397,7 @@ def ftext_oracle(tgt, data):
         else:
             x = round_to(tgt, -v if neg else v)
             if x in ("inf", "-inf"):
-                out.append((k, "ovf"))
+                out.append((k, "ovf" if x == "inf" else "-ovf"))
             else:
                 out.append((k, encode(tgt, x, negzero=neg and x == 0)))
     return out
